@@ -14,7 +14,7 @@ open LexVerif.Proof.RoundNE LexVerif.Proof.ExtRound LexVerif.Proof.BinaryCorrect
 
 /-- a two-sided estimate: `(mant − cl)·2^K < (num/den)·2^L·2^S < (mant + ch)·2^K` (`est` is the un-biased estimate) -/
 def Est2 (F : FTy) (p : Nat) (est : ExtendedFloat80) (cl ch num den : Nat) : Prop :=
-  2 ^ 63 ≤ est.mant ∧ est.mant < 2 ^ 64 ∧ -est.exp + 1 ≤ 65 ∧ est.exp < 32768 ∧
+  2 ^ 63 ≤ est.mant ∧ est.mant < 2 ^ 64 ∧
   est.mant * 2 ^ (est.exp + 64 - p - 1).toNat * den <
     num * 2 ^ L F.fmt * 2 ^ shiftOf p est.exp + cl * 2 ^ (est.exp + 64 - p - 1).toNat * den ∧
   num * 2 ^ L F.fmt * 2 ^ shiftOf p est.exp < (est.mant + ch) * 2 ^ (est.exp + 64 - p - 1).toNat * den
@@ -42,6 +42,7 @@ theorem bellerophon_invalid_est {F : FTy} {p eb : Nat} (lay : Layout F p eb)
     (hw : n.mantissa < 2 ^ 64) (hmw : n.manyDigits = true → 2 ^ 44 ≤ n.mantissa)
     (num den : Nat) (hd : 0 < den) (htv : TrueValue r n num den) {fp : ExtendedFloat80}
     (h : bellerophon F P n false = .ok fp) (hinv : fp.exp < 0) :
+    -(fp.exp - invalidFp) + 1 ≤ 65 ∧ fp.exp - invalidFp < 32768 ∧
     Est2 F p { fp with exp := fp.exp - invalidFp } 4
       (8 + if n.manyDigits then 2 * 2 ^ clz64 n.mantissa + 1 else 0) num den := by
   have hp64 := lay.hp64
@@ -81,7 +82,7 @@ theorem bellerophon_invalid_est {F : FTy} {p eb : Nat} (lay : Layout F p eb)
         injection h with h; subst h
         have hrel := shift_rel p (by omega) pw
         have e0 : pw + invalidFp - invalidFp = pw := by omega
-        refine ⟨hm1, hm2, by simp only [e0]; omega, by simp only [e0]; omega, ?_, ?_⟩
+        refine ⟨by simp only [e0]; omega, by simp only [e0]; omega, hm1, hm2, ?_, ?_⟩
         all_goals
           simp only [e0]
           generalize hK : (pw + 64 - p - 1).toNat = K at *
